@@ -55,7 +55,8 @@ CLAIMED = {
         "sound for the semantics) runs a two-thread program to completion inside Coq; C04_atomic_sites — the atomic call sites regenerated from the "
         "source are exactly the expected ones. NOT proved: that each thread reads back exactly what its own operations would produce sequentially (the data content under interleaving; the "
         "theorems give race freedom and the frame, which is what makes the sequential theorem C01 applicable to each thread's buffer accesses, but that last step is an argument, not a theorem), "
-        "and cloning THROUGH a borrowed reference. LENDING &LeanString to a scoped thread that reads is part of the machine (ALend / AReadB / AJoinB, invariant J10): covered by "
+        "and a typing rule for lending in the program semantics. LENDING &LeanString to a scoped thread that reads and clones through it is part of the machine (ALend / AReadB / ACloneB / AJoinB, invariant J10, "
+        "stale-read bound J7 relative to the joint knowledge of a thread and its borrowers): covered by "
         "C04_protocol_safe_all_schedules for every schedule and any number of borrowers; C04_borrowed_buffer_protected - while a loan is outstanding the buffer is live, the lender holds its "
         "reference, nobody is exclusive or must free. Tie to the code: the real crate built with "
         "--cfg loom --cfg lean_string_verif; every buffer gets a loom UnsafeCell touched by the crate's access notes, so loom's causality checker reports unordered conflicting accesses and the "
